@@ -23,6 +23,7 @@ EXPLANATION = (
     "NOT decided: "
     "argument binding over all signature shapes (inspect.signature semantics), from_format/to_format conversions."
     ' (R13) the positional list handed to the wrapped function is never rebuilt from the `.values()` of a BoundArguments.arguments mapping (a *args parameter is one entry of it); R2 follows a store into such a mapping through the object it is a view of.'
+    ' (R14) under an `isinstance(out, tuple)` guard the decorators rebuild a result with its own type (type(out)(...), _make, _replace), never with the base tuple constructor.'
 )
 LEVEL_RULE = "one obligation per validate call site / obj_getter branch / wrapper / forwarding call in decorators.py"
 FLOORS = {"R1": 7, "R2": 3, "R3": 4, "R4": 2, "R5": 5, "R6": 2, "R7": 2, "R8": 1, "R9": 1, "R10": 2, "R11": 1, "R12": 1}
@@ -313,12 +314,71 @@ def r13_positionals_not_rebuilt_from_arguments_mapping(ctx):
         raise AnalysisError(f"decorators.py: signature binding sites found: {binds}")
 
 
+def r14_tuple_result_keeps_its_type(ctx):
+    """Apart from validation a decorated function returns exactly what the undecorated one would.  `isinstance(out, tuple)`
+    also holds for every tuple *subclass* (NamedTuple results); writing the validated object back by rebuilding the result
+    with the base `tuple(...)` constructor hands the caller a plain tuple (`result.frame` -> AttributeError).  On every path
+    on which that test holds (if-form or early exit) a value that replaces / is returned for the result is rebuilt with
+    the result's own type (`type(out)(...)`, `out._make(...)`, `out._replace(...)`)."""
+    from ..util import Expander
+    m = ctx.ix.module("pandera/decorators.py")
+    n = 0
+    for f in m.all_functions:
+        tests = [t for t in ast.walk(f.node) if isinstance(t, ast.Call) and isinstance(t.func, ast.Name) and t.func.id == "isinstance" and len(t.args) == 2
+                 and isinstance(t.args[0], ast.Name) and isinstance(t.args[1], ast.Name) and t.args[1].id == "tuple"]
+        if not tests:
+            continue
+        cfg = cfg_of(f.node)
+        ex = Expander(f.node)
+        for var in sorted({t.args[0].id for t in tests}):
+            for st in function_stmts(f):
+                if isinstance(st, ast.Assign) and any(isinstance(x, ast.Name) and x.id == var for x in st.targets):
+                    val = st.value
+                elif isinstance(st, ast.Return) and st.value is not None:
+                    val = st.value
+                else:
+                    continue
+                if isinstance(val, ast.Name):
+                    continue
+                node = cfg.node_of(st)
+                if node is None:
+                    continue
+                gs = []
+                for t, pol in cfg.guards(node.id):
+                    while isinstance(t, ast.UnaryOp) and isinstance(t.op, ast.Not):
+                        t, pol = t.operand, not pol
+                    gs.append((t, pol))
+                holds = any(pol and isinstance(t, ast.Call) and isinstance(t.func, ast.Name) and t.func.id == "isinstance" and len(t.args) == 2
+                            and txt(t.args[0]) == var and txt(t.args[1]) == "tuple" for t, pol in gs)
+                if not holds:
+                    continue
+                derived = any(isinstance(x, ast.Name) and x.id == var for d in [val] + list(ex.closure(val)) for x in ast.walk(d))
+                if not derived:
+                    continue
+                own = any((isinstance(x, ast.Call) and isinstance(x.func, ast.Name) and x.func.id == "type" and x.args and txt(x.args[0]) == var) or
+                          (isinstance(x, ast.Attribute) and x.attr in ("_make", "_replace", "__class__") and txt(x.value) == var) for x in ast.walk(val))
+                base = any(isinstance(x, ast.Call) and isinstance(x.func, ast.Name) and x.func.id == "tuple" for x in ast.walk(val)) or \
+                    isinstance(val, (ast.Tuple, ast.BinOp))
+                if not own and not base:
+                    continue  # neither form: not decided here
+                n += 1
+                ctx.touched(f)
+                ok = own and not (base and not own)
+                ctx.ob("R14", f, f"{f.short}: a tuple result is rebuilt with its own type", ok,
+                       f"`{txt(st)[:60]}`" if ok else
+                       f"`{txt(st)[:80]}` where `isinstance({var}, tuple)` holds: a NamedTuple result comes back as a plain tuple (check_output(schema, 0) on a function "
+                       "returning Result(frame, n): `out.frame` raises AttributeError, the undecorated function returns Result)", f.loc(st))
+    if n < 1:
+        raise AnalysisError("decorators.py: tuple result put-back not found")
+
+
 def run(ctx):
     r9_positional_writeback(ctx)
     r10_accessor_marks_instance_only(ctx)
     r11_unwrap_only_optional(ctx)
     r12_pydantic_validate_returns_validated(ctx)
     r13_positionals_not_rebuilt_from_arguments_mapping(ctx)
+    r14_tuple_result_keeps_its_type(ctx)
     from ..defassign import check_modules
     check_modules(ctx, "R8", ('pandera/decorators.py',), "escapes the decorated call instead of the SchemaError(s)")
     ix = ctx.ix
